@@ -24,6 +24,7 @@ inductive Err where
   | labelTooLong    -- "Label too long" (decode)
   | nameTooLong     -- "Domain name too long" (decode)
   | unterminated    -- "Domain name not terminated within message"
+  | tooManyJumps    -- "Too many compression pointers in one name"
   | malicious       -- validateRdataSecurity
   | rdShort         -- "RDATA too short for compression pointer"
   | rdBadPointer    -- "Invalid compression pointer in RDATA"
@@ -61,8 +62,14 @@ def rd32 (m : Bytes) (i : Nat) : R Nat := do
 def checkBounds (off needed total : Nat) : R Unit :=
   if off + needed > total then .error .bounds else .ok ()
 
-/-- `(data + o, n)` as a byte string -/
+/-- the bytes `[o, o + n)` of `m` as a value (specification level: total, used by the reference relation) -/
 def slice (m : Bytes) (o n : Nat) : Bytes := (m.drop o).take n
+
+/-- a BULK copy out of a buffer — `name.append(data + o, n)`, `rdata.assign(data + o, data + o + n)`, `memcpy(&addr, rdata, 16)`,
+`str.assign(rdata + o, n)`: reading `n` bytes from offset `o`.  Like `rd`, it has the explicit outcome `oob` when the range
+is not inside the buffer, so a missing guard in the model shows up as a reachable `oob` (and breaks N3). -/
+def copy (m : Bytes) (o n : Nat) : R Bytes :=
+  if o + n ≤ m.length then .ok (slice m o n) else .error .oob
 
 /-- `(b & DNS_COMPRESSION_MASK) == DNS_COMPRESSION_MASK` (the translator checks that the mask is a run of high bits) -/
 def isPtr (b : UInt8) : Bool := decide (Gen.Dns.compressionMask ≤ b.toNat)
@@ -80,8 +87,12 @@ structure NSt where
   jumped : Bool := false
   orig : Nat := 0               -- `originalOffset`
   total : Nat := 0              -- `totalLength`
+  jumps : Nat := 0              -- `jumps`
   name : Bytes := []
   deriving Repr
+
+/-- `totalLength + 1 > DNS_MAX_NAME_SIZE` counts the root label; the older `totalLength > …` does not -/
+def rootOctet : Nat := if Gen.Dns.nameLimitCountsRoot then 1 else 0
 
 /-- mirrors the loop of `decodeNameWithLoopDetection` (one unit of fuel per iteration) -/
 def decodeGo (m : Bytes) : Nat → NSt → R (Bytes × Nat)
@@ -102,18 +113,24 @@ def decodeGo (m : Bytes) : Nat → NSt → R (Bytes × Nat)
               let p := w % (Gen.Dns.pointerMask + 1)
               if p ≥ m.length then .error .badPointer
               else if s.visited.contains p then .error .loop
-              else decodeGo m f { s with off := p, visited := p :: s.visited, jumped := true, orig := orig }
+              else if Gen.Dns.hasJumpCap && decide (s.jumps + 1 > Gen.Dns.maxJumps) then .error .tooManyJumps
+              else decodeGo m f { s with off := p, visited := p :: s.visited, jumped := true, orig := orig, jumps := s.jumps + 1 }
         else if len = 0 then .ok (s.name, if s.jumped then s.orig else s.off + 1)
         else if len > Gen.Dns.maxLabel then .error .labelTooLong
         else if s.off + 1 + len > m.length then .error .bounds
-        else if s.total + (len + 1) > Gen.Dns.maxName then .error .nameTooLong
-        else decodeGo m f { s with off := s.off + (len + 1), total := s.total + (len + 1),
-                                   name := appendLabel s.name (slice m (s.off + 1) len) }
+        else
+          match copy m (s.off + 1) len with
+          | .error e => .error e
+          | .ok lbl =>
+            if s.total + (len + 1) + rootOctet > Gen.Dns.maxName then .error .nameTooLong
+            else decodeGo m f { s with off := s.off + (len + 1), total := s.total + (len + 1), name := appendLabel s.name lbl }
     else if Gen.Dns.unterminatedIsError then .error .unterminated
     else .ok (s.name, if s.jumped then s.orig else s.off)
 
-/-- fuel handed to the name loop; N4 proves `m.length + 127` iterations always suffice -/
-def nameFuel (m : Bytes) : Nat := m.length + 128
+/-- fuel handed to the name loop.  With the bound on compression pointers per name it is a CONSTANT (N4: at most
+`maxJumps + maxName / 2 + 1` iterations per name, whatever the message); without it, it grows with the message. -/
+def nameFuel (m : Bytes) : Nat :=
+  if Gen.Dns.hasJumpCap then Gen.Dns.maxJumps + Gen.Dns.maxName / 2 + 2 else m.length + 130
 
 /-- mirrors `decodeName(data, offset, size, name)`: (name, new offset) -/
 def decodeName (m : Bytes) (off : Nat) : R (Bytes × Nat) :=
@@ -263,7 +280,8 @@ def parseRR (m : Bytes) (off : Nat) : R (RR × Nat × Nat) := do
   let rdl ← rd16 m (off + 8)
   let rdOff := off + 10
   checkBounds rdOff rdl m.length
-  let rr : RR := { name := n, type := t, cls := c, ttl := ttl, rdlength := rdl, rdata := slice m rdOff rdl }
+  let rdata ← copy m rdOff rdl
+  let rr : RR := { name := n, type := t, cls := c, ttl := ttl, rdlength := rdl, rdata := rdata }
   validateRdata rr
   pure (rr, rdOff, rdOff + rdl)
 
@@ -303,7 +321,9 @@ def parseA (rr : RR) : R Typed :=
 /-- mirrors `parseAAAARecord` (`memcpy` of 16 bytes after the length check) -/
 def parseAAAA (rr : RR) : R Typed :=
   if rr.rdata.length ≠ Gen.Dns.lenAAAA then .error .typedLen
-  else pure (.aaaa rr.name (slice rr.rdata 0 16) rr.ttl)
+  else do
+    let addr ← copy rr.rdata 0 16
+    pure (.aaaa rr.name addr rr.ttl)
 
 /-- mirrors `parseSrvRecord` -/
 def parseSrv (rr : RR) (m : Bytes) (rdStart : Nat) : R Typed :=
@@ -324,7 +344,9 @@ def naptrString (r : Bytes) (off : Nat) : R (Bytes × Nat) :=
   else do
     let l ← rd r off
     if off + 1 + l.toNat > r.length then pure ([], off + 1)
-    else pure (slice r (off + 1) l.toNat, off + 1 + l.toNat)
+    else do
+      let str ← copy r (off + 1) l.toNat
+      pure (str, off + 1 + l.toNat)
 
 /-- mirrors `parseNaptrRecord` -/
 def parseNaptr (rr : RR) (m : Bytes) (rdStart : Nat) : R Typed :=
@@ -373,7 +395,10 @@ def txtGo (r : Bytes) (off : Nat) (acc : List Bytes) : R (List Bytes) :=
     | .error e => .error e
     | .ok l =>
       if off + 1 + l.toNat > r.length then .ok acc
-      else txtGo r (off + 1 + l.toNat) (acc ++ [slice r (off + 1) l.toNat])
+      else
+        match copy r (off + 1) l.toNat with
+        | .error e => .error e
+        | .ok txt => txtGo r (off + 1 + l.toNat) (acc ++ [txt])
   else .ok acc
 termination_by r.length - off
 decreasing_by omega
@@ -506,8 +531,10 @@ def encodeQuestions : List Question → R Bytes
       | .error e => .error e
       | .ok rest => .ok (n ++ be16 q.qtype ++ be16 q.qclass ++ rest)
 
-/-- mirrors `buildQuery(questions, recursionDesired, id)` for `id ≠ 0` (0 asks for a random id) -/
-def buildQuery (qs : List Question) (recursionDesired : Bool) (id : Nat) : R Bytes :=
+/-- mirrors `buildQuery(questions, recursionDesired, id)`.  `id == 0` asks for a generated id: `generated` is what
+`generateQueryId()` returns (an input of the model; the code draws it from `uniform_int_distribution(1, 65535)`). -/
+def buildQuery (qs : List Question) (recursionDesired : Bool) (id : Nat) (generated : Nat := 1) : R Bytes :=
+  let id := if id = 0 then generated else id
   match encodeQuestions qs with
   | .error e => .error e
   | .ok body =>
